@@ -39,7 +39,7 @@ static void run() {
     fast = true;
 #endif
     if (!fast) {
-        vp::stats().rule = "enum: all 2^24 (state, octet) pairs of the update step; known check value; random buffers <= 4 KiB split at every position; word buffers of every length 0..64 from random states";
+        vp::stats().rule = "enum: all 2^24 (state, octet) pairs of the update step; known check value; random buffers <= 4 KiB split at every position; buffers of 2^8/2^15/2^16/2^17 (+-1,2) octets and words; word buffers of every length 0..64 from random states";
         vp::stats().exhaustive = true;
         // (1) all (state, octet) pairs, dealt to shards by state
         for (uint32_t st = a.shard; st < 65536; st += a.nshards)
@@ -69,6 +69,26 @@ static void run() {
                 check_buffer(st, buf.data(), n, split, true);
             }
             VP_SAMPLE(ser(st, buf.data(), std::min<size_t>(n, 24), 0) + vp::fmt("(%zu octets, every split)", n));
+        }
+        // (2b) size boundaries: 2^8, 2^15, 2^16, 2^17 (+-1) octets / words - a length kept in a narrower type shows here
+        {
+            static const size_t SIZES[] = {255, 256, 257, 32767, 32768, 32769, 65534, 65535, 65536, 65537, 65538, 131070, 131071, 131072, 131073, 131074, 200001, 262144};
+            size_t k = 0;
+            for (size_t n : SIZES) {
+                if (k++ % a.nshards != a.shard) continue;
+                std::vector<uint8_t> buf(n);
+                for (auto &b : buf) b = rng.byte();
+                uint16_t st = (uint16_t)rng.next();
+                for (size_t split : {(size_t)0, (size_t)1, n / 2, n / 2 + 1, n - 1, n}) {
+                    vp::count(); vp::cls("size-boundary-buffers");
+                    vp::nontrivial(vp::mix(vp::fnv(buf.data(), 64, st), n * 8 + split % 8));
+                    check_buffer(st, buf.data(), n, split, true);
+                }
+                // odd start address inside a larger block
+                std::vector<uint8_t> shifted(n + 1); memcpy(shifted.data() + 1, buf.data(), n);
+                uint16_t want = ref::crc16_arc(st, buf.data(), n);
+                if (ufw_crc16_arc(st, shifted.data() + 1, n) != want) vp::fail("octets:odd-address", vp::fmt("buffer of %zu octets at an odd address", n), ser(st, buf.data(), std::min<size_t>(n, 64), 0));
+            }
         }
         // (3) word buffers of every length 0..64
         for (size_t words = a.shard; words <= 64; words += a.nshards)
